@@ -580,6 +580,7 @@ fn candidates(t: &GenTable, col: usize) -> Vec<String> {
 }
 
 fn eval_text(scope: &Scope, text: &str) -> Option<Value> {
+  crate::util::note_case(text);
   let n = dmntk_feel_parser::parse_expression(scope, text, false).ok()?;
   dmntk_feel_evaluator::evaluate(scope, &n).ok()
 }
